@@ -470,6 +470,11 @@ func propTable() map[string]*PropSpec {
 				}
 			}
 		}
+		// weights 1,2,3,4: the committing node holds more COMMITs than a count-quorum
+		wl := rc("C03_LateCommit/me=2/prepared=1/timeouts=1/prepare=0/weights=2", ".", "C03_LateCommit", map[string]int{"me": 2, "prepared": 1, "timeouts": 1, "prepare": 0, "weights": 2})
+		wl.RequireReach = []string{"C03.late.commit"}
+		q = append(q, wl)
+		th = append(th, wl)
 		q4 := append([]RunConfig{}, q...)
 		th4 := append([]RunConfig{}, th...)
 		lr := rc("C04_LeaderReproposal", ".", "C04_LeaderReproposal", nil)
@@ -534,6 +539,10 @@ func propTable() map[string]*PropSpec {
 				q = append(q, c)
 			}
 		}
+		// a member floods the node with PREPAREs for 40 different later views before the timeout
+		fl := rc("C09_Vote/me=2/weights=0/second_view=0/flood=40", ".", "C09_Vote", map[string]int{"me": 2, "weights": 0, "second_view": 0, "flood": 40})
+		q = append(q, fl)
+		th = append(th, fl)
 		for _, w := range []int{0, 2} {
 			c := rc(fmt.Sprintf("C09_LeaderViews/weights=%d", w), ".", "C09_LeaderViews", map[string]int{"weights": w})
 			c.RequireReach = []string{"C09.nv.locked"}
@@ -647,6 +656,9 @@ func propTable() map[string]*PropSpec {
 		tn := mkN(1, 2)
 		tn.Name += "/trailing=4"
 		tn.Params = map[string]int{"sym": 1, "prepares": 2, "trailing": 4}
+		hf := mkN(1, -1)
+		hf.Name += "/honest_first=1"
+		hf.Params = map[string]int{"sym": 1, "prepares": -1, "honest_first": 1}
 		bl := rc("C11_BlocklessNewView", ".", "C11_BlocklessNewView", nil)
 		bl.RequireReach = []string{"C11.blockless.committed", "C11.blockless.voted"}
 		tn0 := mkN(1, -1)
@@ -660,7 +672,7 @@ func propTable() map[string]*PropSpec {
 		tvcr.Name += "/maps=reversed"
 		tvcr.MapReverse = true
 		tvcr.RequireReach = nil
-		q := []RunConfig{tv, tvc, tvcr, tn, tn0, bl, mkV(2, 1), mkV(3, 2), mkN(1, -1), mkN(1, 2), mkP(2), mkP(1), mkX(0, 3), mkX(3, 0), mkX(0, 2)}
+		q := []RunConfig{tv, tvc, tvcr, tn, tn0, hf, bl, mkV(2, 1), mkV(3, 2), mkN(1, -1), mkN(1, 2), mkP(2), mkP(1), mkX(0, 3), mkX(3, 0), mkX(0, 2)}
 		th := append([]RunConfig{}, q...)
 		th = append(th, mkV(3, 1), mkV(2, 2), mkN(0, -1), mkN(2, -1), mkN(1, 0), mkN(1, 3), mkN(2, 2), mkP(3), mkX(2, 0), mkX(2, 3), mkX(3, 2))
 		for _, me := range []int{0, 1, 2} {
